@@ -608,7 +608,8 @@ class Sim:
         for sig, kw in (('D1_dirty_edge_ignores_discovered_inputs', dict(cf_dirty_ignores_discovered=True)),
                         ('D8_failed_command_touched_output_trusted', dict(cf_trust_after_failed_touch=True)),
                         ('D1_dirty_edge_ignores_discovered_inputs+D8_failed_command_touched_output_trusted',
-                         dict(cf_dirty_ignores_discovered=True, cf_trust_after_failed_touch=True))):
+                         dict(cf_dirty_ignores_discovered=True, cf_trust_after_failed_touch=True)),
+                        ('D18_dirty_before_dyndep_restat_clean_after', dict(cf_dyndep_restat_late=True))):
             p = m.plan(self.g, files_before, targets, **kw)
             if p['error'] is None and need_same_run and sorted(p['run']) != sorted(started) and p['ignored']:
                 # a restat statement that ran without its discovered inputs may or may not have reproduced its old
@@ -623,7 +624,7 @@ class Sim:
                         break
             if p['error'] is not None or (need_same_run and sorted(p['run']) != sorted(started)):
                 continue
-            origin = p['ignored'] | p['trusted']
+            origin = p['ignored'] | p['trusted'] | p.get('late', set())
             if not origin:
                 continue
             # statements that only the ignored discovered inputs would have pulled into the build
@@ -791,12 +792,22 @@ class Sim:
         if ok and self.check.get('converge', True) and not any(f['kind'] for f in self.findings if f['prop'] in ('C01', 'C03') and not f['known']):
             # C02: the same invocation again must start nothing
             always_dirty = self.has_always_dirty(targets)
+            first_model, first_cur = self.last_model_before, dict(getattr(self, 'cur', None) or {})
             self.last_model_before = self.model.clone()
             r2 = self.invoke(targets, j=1, oracles=False)
             if r2 is not None and not always_dirty:
                 st2 = [ev['edge'] for ev in r2['trace'] if ev['ev'] == 'start']
                 if st2 or r2['phase'] != 'uptodate':
-                    self.add('C02', 'second run of the same build is not a no-op', dict(started=st2, phase=r2['phase'], err=r2['err'], targets=targets))
+                    known = None
+                    if st2 and first_cur:
+                        # the first build is where a listed finding acts (a dirty statement that ignored its discovered
+                        # inputs ran beside their producer): attribute with the first build's state, not the second's
+                        keep = self.last_model_before
+                        self.last_model_before = first_model
+                        known = self.attribute(first_cur['targets'], first_cur['started'], first_cur['files_before'], st2, need_same_run=False)
+                        self.last_model_before = keep
+                    self.add('C02', 'second run of the same build is not a no-op', dict(started=st2, phase=r2['phase'], err=r2['err'], targets=targets),
+                             known=known)
                     self.stop = True
 
     def has_always_dirty(self, targets):
